@@ -123,7 +123,7 @@ def project(fig, path, names, all_axes=False):
     P["afs"] = round(float(ax0.texts[0].get_fontsize()), 3) if ax0.texts else None
     P["format"] = file_format(path)
     P["pixels"] = png_size(path)
-    P["dpi"] = P["pixels"]
+    P["dpi"] = getattr(fig, "_verif_saved_dpi", None)
     return P
 
 
@@ -178,11 +178,7 @@ def owned_ok(prop, expected, P, P0):
             e = tuple(_nums(expected))
             return None if got is not None and all(abs(a - b) < 1e-6 for a, b in zip(got, e)) else "figsize: expected %r inches, figure has %r" % (e, got)
         if prop == "dpi":
-            # the saved image scales with the resolution (baseline written at 100 dpi)
-            if got is None or P0.get("pixels") is None:
-                return "dpi: no PNG written"
-            ratio = got[0] / float(P0["pixels"][0])
-            return None if abs(ratio - float(expected) / 100.0) < 0.08 * float(expected) / 100.0 + 0.02 else "dpi %s: image is %r pixels, %r at 100 dpi" % (expected, got, P0["pixels"])
+            return None if got is not None and abs(float(got) - float(expected)) < 1e-9 else "dpi: image written at %r dpi, expected %r" % (got, expected)
         if prop in ("left", "right", "top", "bottom"):
             return None if got is not None and abs(float(got) - float(expected)) < 1e-6 else "%s: expected %r, subplot parameters have %r" % (prop, expected, got)
     except (ValueError, TypeError) as e:
